@@ -2,8 +2,8 @@
 # tools/seed_verify.sh <PROP> <k> <mutants_dir> <orig_worktree_path>
 # Independently confirm a seeded change: demo passes on clean tree, fails with the patch, pinned suite unchanged.
 # On success copies patch/demo/notes to /verif/seeded/<PROP>-<k>/ and writes meta.json (checks_result filled later).
-prop=$1; k=$2; src=$3; orig=$4
-WT=/tmp/sv-$prop-$k
+prop=$1; k=$2; src=$3; orig=$4; sid=${5:-$k}   # sid: number under which the seed is stored (wave 2: k+3)
+WT=/tmp/sv-$prop-$sid
 cd /verif
 git -C /repo worktree remove --force $WT >/dev/null 2>&1; rm -rf $WT $WT-nosuite
 git -C /repo worktree add --detach $WT HEAD >/dev/null 2>&1 || { echo "worktree failed"; exit 2; }
@@ -15,11 +15,11 @@ for f in $src/*; do
   b=$(basename $f)
   sed "s#$orig#$WT#g" $f > $WT/MUTANTS/$b
 done
-run_demo() { (cd $WT/MUTANTS && timeout 900 /venv/bin/python demo_$k.py >/tmp/sv-$prop-$k.$1.log 2>&1); echo $?; }
+run_demo() { (cd $WT/MUTANTS && timeout 900 /venv/bin/python demo_$k.py >/tmp/sv-$prop-$sid.$1.log 2>&1); echo $?; }
 rc_clean=$(run_demo clean)
-if ! git -C $WT apply $src/patch_$k.diff 2>/tmp/sv-$prop-$k.apply.log; then echo "RESULT $prop-$k PATCH-DOES-NOT-APPLY"; cat /tmp/sv-$prop-$k.apply.log | head -5; git -C /repo worktree remove --force $WT; exit 1; fi
+if ! git -C $WT apply $src/patch_$k.diff 2>/tmp/sv-$prop-$sid.apply.log; then echo "RESULT $prop-$k PATCH-DOES-NOT-APPLY"; cat /tmp/sv-$prop-$sid.apply.log | head -5; git -C /repo worktree remove --force $WT; exit 1; fi
 if grep -q "\.pyx" $src/patch_$k.diff; then
-  (cd $WT && find enspara -name "*.so" -delete && /venv/bin/python setup.py build_ext --inplace >/tmp/sv-$prop-$k.build.log 2>&1) || { echo "RESULT $prop-$k BUILD-FAILED"; }
+  (cd $WT && find enspara -name "*.so" -delete && /venv/bin/python setup.py build_ext --inplace >/tmp/sv-$prop-$sid.build.log 2>&1) || { echo "RESULT $prop-$k BUILD-FAILED"; }
 fi
 rc_mut=$(run_demo mutated)
 rsync -a --exclude '*.so' --exclude build --exclude MUTANTS $WT/ $WT-nosuite/
@@ -27,16 +27,16 @@ suite=$(cd $WT-nosuite && /venv/bin/python -m pytest -ra -q -p no:cacheprovider 
 rm -rf $WT-nosuite
 ok=no
 if [ "$rc_clean" = "0" ] && [ "$rc_mut" != "0" ] && echo "$suite" | grep -q "47 passed" && echo "$suite" | grep -q "1 failed" && echo "$suite" | grep -q "20 errors"; then ok=yes; fi
-echo "RESULT $prop-$k confirmed=$ok demo_clean_rc=$rc_clean demo_mutated_rc=$rc_mut suite='$suite'"
+echo "RESULT $prop-$sid confirmed=$ok demo_clean_rc=$rc_clean demo_mutated_rc=$rc_mut suite='$suite'"
 if [ $ok = yes ]; then
-  d=/verif/seeded/$prop-$k; mkdir -p $d
+  d=/verif/seeded/$prop-$sid; mkdir -p $d
   cp $src/patch_$k.diff $d/patch.diff
   cp $src/demo_$k.py $d/demo.py
   [ -f $src/notes_$k.md ] && cp $src/notes_$k.md $d/notes.md
   for extra in $src/_*.py; do [ -f "$extra" ] && cp $extra $d/; done
-  tail -3 /tmp/sv-$prop-$k.mutated.log > $d/demo_output_with_change.txt
+  tail -3 /tmp/sv-$prop-$sid.mutated.log > $d/demo_output_with_change.txt
   cat > $d/meta.json <<EOF
-{"property": "$prop", "seed_id": "$prop-$k", "origin": "independent sub-agent given only the property text and a scratch worktree ($orig)",
+{"property": "$prop", "seed_id": "$prop-$sid", "origin": "independent sub-agent given only the property text and a scratch worktree ($orig)",
  "confirmed_here": {"demo_rc_on_clean_tree": $rc_clean, "demo_rc_with_change": $rc_mut, "pinned_suite_with_change": "$suite",
   "how": "tools/seed_verify.sh: fresh worktree of /repo HEAD $(git -C /repo rev-parse --short HEAD), extensions copied from the build cache (rebuilt in place when the patch touches a .pyx), demo paths rewritten to that worktree"},
  "needs_to_manifest": "see notes.md", "checks_run": null}
